@@ -785,7 +785,9 @@ func inlinable(pk *packages.Package, fd *ast.FuncDecl, obj *types.Func) string {
 				}
 				_ = y
 			case *ast.LabeledStmt:
-				if !inLit {
+				// labels generated by earlier inlining rounds are unique program-wide; a second copy in one
+				// function would not compile and is rolled back by the type check
+				if !inLit && !strings.HasPrefix(y.Label.Name, "inl") {
 					why = "contains labels"
 				}
 			case *ast.CallExpr:
